@@ -88,10 +88,13 @@ def gen_metric(rnd, is_group):
 
 def gen_sampler(rnd, is_group, big):
     r = rnd.random()
+    # a callable sampler replaces the built-in resampling altogether: flags of the built-in methods that are set on
+    # the same configuration (stratification) have nothing to act on
+    outer = rnd.choice([None, None, None, "by_label"] + (["by_group", "by_group"] if is_group else []))
     if r < 0.15:
-        return {"callable": "identity"}
+        return {"callable": "identity", "outer_strat": outer}
     if r < 0.35:
-        return {"callable": "counting", "mixed": rnd.random() < 0.4}
+        return {"callable": "counting", "mixed": rnd.random() < 0.4, "outer_strat": outer}
     method = rnd.choice(["replacement", "single_pass", "dynamic"] + ([] if is_group else ["proportion"]))
     strat = rnd.choice([None, None, "by_label"] + (["by_group"] if is_group else []))
     inner = {"sampling_method": method, "stratified_sampling": strat}
@@ -100,7 +103,7 @@ def gen_sampler(rnd, is_group, big):
     if not is_group and method in ("replacement", "dynamic") and rnd.random() < 0.1:
         inner["smoothing"] = True
     if r < 0.7:
-        return {"callable": "recording", "inner": inner}
+        return {"callable": "recording", "inner": inner, "outer_strat": outer}
     return inner
 
 
@@ -416,7 +419,7 @@ def execute(scn, ctx):
             inner_cfg = M.build_config(dict(sspec.get("inner", {}), nb_samples=1)) if s_kind == "recording" else None
             sampler = RecSampler(s_kind, inner_cfg, dict(spec, __mixed_identity=bool(sspec.get("mixed"))), fl) if s_kind != "builtin" else None
             config = M.build_config(dict(sspec if s_kind == "builtin" else {}, **cfg), sampler=sampler) if s_kind == "builtin" else \
-                M.build_config(dict(cfg, sampling_method={"callable": s_kind}), sampler=sampler)
+                M.build_config(dict(cfg, sampling_method={"callable": s_kind}, stratified_sampling=sspec.get("outer_strat")), sampler=sampler)
             metric = mname if named else RecMetric(base_metric(mname, L), fl, target, ctx)
             if kind == "bootstrap_metric":
                 call = lambda: target.bootstrap_metric(metric, config=config, **kwargs)  # noqa: E731
